@@ -321,8 +321,17 @@ func init() {
 	c15 := &dagFamily{prop: "C15", gen: c15gen, nontrivial: func(spec *vexec.CaseSpec, out *vexec.Outcome, obl int64) bool {
 		return spec.MaxActiveRuns > 0 && out.MaxOpen >= spec.MaxActiveRuns && len(spec.Steps) > spec.MaxActiveRuns
 	}}
-	core.Register(&core.Prop{ID: "C15", Level: "exploration", Body: c15.body, Passes: famPasses(16, 16), CrashKey: crashKeyGeneric, MinDistinct: 50,
-		Rule:        "Wide DAGs (few edges favoured) with maxActiveRuns k in 0..steps+1, retries with and without interval. Oracle, online at every Run() entry: open Run() calls + steps sleeping out a retry interval <= k (k>0). 'Never prevents completion': the logical fix-point detector (no worker alive, no event, state vector unchanged for 3 loop iterations, loop not finished) flags a stuck run. k=0: in hold cases every initially ready step must be open at once. Non-trivial = the high-water mark of open runs reached k while more steps than k existed. Distinct as in C01.",
+	c15Passes := famPasses(16, 16)
+	core.Register(&core.Prop{ID: "C15", Level: "exploration", Body: func(c *core.Ctx) {
+		if c.Mode == "base" {
+			c15BaseBody(c)
+			return
+		}
+		c15.body(c)
+	}, Passes: func(tier string) []core.Pass {
+		return append(c15Passes(tier), core.Pass{Name: "base", Mode: "base", Shards: 16, Timeout: 40 * time.Minute})
+	}, CrashKey: crashKeyGeneric, MinDistinct: 50,
+		Rule:        "Wide DAGs (few edges favoured) with maxActiveRuns k in 0..steps+1, retries with and without interval. Oracle, online at every Run() entry: open Run() calls + steps sleeping out a retry interval <= k (k>0). 'Never prevents completion': the logical fix-point detector (no worker alive, no event, state vector unchanged for 3 loop iterations, loop not finished) flags a stuck run. k=0: in hold cases every initially ready step must be open at once. Non-trivial = the high-water mark of open runs reached k while more steps than k existed. Distinct as in C01. Base pass (real binary): 16 (32) runs of five independent steps with maxActiveRuns set in the base configuration file (none/1/2/3) and/or in the DAG (none/1/2/4); the steps are children that append BEGIN/END lines to one marker file; the number of steps between BEGIN and END never exceeds the limit in force (the DAG's own, else the base's) and every step completes.",
 		Assumptions: []string{"the retry-sleeper clause is observable only in the free-running pass (in controlled mode a worker's retry sleep is atomic w.r.t. the loop)"}})
 }
 
